@@ -1,5 +1,5 @@
 (* C14 - foreign files.  Statements only. *)
-Require Import FL.Base.Bytes FL.Base.BytesFacts FL.Base.PathName FL.Fs.Fs FL.Names.FileSpec FL.Flw.Model FL.Oracles.ReaderOrder.
+Require Import FL.Base.Bytes FL.Base.BytesFacts FL.Base.PathName FL.Fs.Fs FL.Names.FileSpec FL.Flw.Model FL.Oracles.ReaderOrder FL.Names.FamilyFacts.
 
 (* whatever the oracles treat as a member of the family has the documented shape
    fixed [_ infix] [.suffix] [.gz] *)
@@ -69,6 +69,27 @@ Proof.
   - destruct (sel_custom sel); [eapply F; eauto | injection E4 as <-; destruct I].
 Qed.
 
+(* the family test of the listing against the documented pattern fixed [_] infix [.restart-NNNN] [.suffix]:
+   what it accepts (with a non-empty infix) has that shape, everything of that shape is accepted *)
+Theorem C14_listing_accepts_family_only : forall sp fixed name infix,
+  infix <> [] -> infix_candidate (fsfx sp) (fsfx sp) fixed name = Some infix -> family_plain sp fixed name infix.
+Proof. exact candidate_is_family. Qed.
+Theorem C14_listing_accepts_all_family : forall sp fixed name infix,
+  family_plain sp fixed name infix -> infix_candidate (fsfx sp) (fsfx sp) fixed name = Some infix.
+Proof. exact family_is_candidate. Qed.
+
+(* noninterference at the listing: a directory entry that the family test rejects can be added or removed without
+   changing what filter_files returns - so numbering, collision handling and cleanup, which all work on these
+   lists, do not see it *)
+Theorem C14_foreign_ignored : forall off sp fixed files flt sfx n,
+  infix_candidate (fsfx sp) sfx fixed n = None ->
+  forall l1 l2, files = l1 ++ n :: l2 ->
+    filter_files off (fsfx sp) fixed files flt sfx = filter_files off (fsfx sp) fixed (l1 ++ l2) flt sfx.
+Proof. exact foreign_ignored. Qed.
+
 Check C14_family_name_shape. Check C14_listing_prefix.
 Print Assumptions C14_family_name_shape.
 Print Assumptions C14_listing_prefix.
+Print Assumptions C14_listing_accepts_family_only.
+Print Assumptions C14_listing_accepts_all_family.
+Print Assumptions C14_foreign_ignored.
